@@ -18,7 +18,7 @@ import (
 	"k8s.io/apimachinery/pkg/types"
 )
 
-var c11Scenarios = []string{"first-deploy", "rolling-update", "canary-time", "canary-validate", "canary-fail", "canary-fail-late", "node-churn", "setting-change", "migration"}
+var c11Scenarios = []string{"first-deploy", "rolling-update", "canary-time", "canary-validate", "canary-fail", "canary-fail-late", "canary-strategy-removed", "node-churn", "setting-change", "migration"}
 
 const c11Slices = 6
 
@@ -41,6 +41,10 @@ func genC11World(r *rand.Rand, scenario string) *World {
 		// and the status is final after its first write
 		e.Strategy.Canary = &CanaryDef{Replicas: pick(r, "1", "2", "100%", "100%"), ValidationMode: "manual"}
 	case "canary-fail":
+		e.Strategy.Canary = &CanaryDef{Replicas: "1", Duration: "30m"}
+	case "canary-strategy-removed":
+		// a paused canary whose strategy the user then removes from the spec: the canary is over,
+		// its block and its pause annotations go, the new template is rolled out
 		e.Strategy.Canary = &CanaryDef{Replicas: "1", Duration: "30m"}
 	case "canary-fail-late":
 		// as canary-fail, but the controller that takes over after the fault does so only after
@@ -156,6 +160,19 @@ func bodyC11(s *Sim) {
 		if scen == "canary-fail-late" {
 			s.lateFrom = s.ctrlCalls + 1
 		}
+	case "canary-strategy-removed":
+		s.userSetTemplate(def.NS, def.Name, "B")
+		s.until(r, max, canaryRunning)
+		s.countCalls = false
+		s.RunCLI("canary-pause", key)
+		s.Round(r)
+		s.Round(r)
+		if e := s.Store.GetEDS(def.NS, def.Name); e != nil {
+			e.Spec.Strategy.Canary = nil
+			s.Store.ForceUpdate(e)
+			s.logf("user removes the canary strategy")
+		}
+		s.countCalls = true
 	case "node-churn":
 		s.Store.Remove(objKey{KNode, "", s.W.Nodes[0].Name})
 		_, _ = s.Store.CreateObj(s.W.SpareNodes[0].Object())
